@@ -5,7 +5,7 @@
    differential runs exercise). *)
 From Coq Require Import List Arith NArith Bool.
 From Coq.Strings Require Import Byte.
-From EZK Require Import Gen.Tables Lib.Bytes Lib.Num Lib.Utf8 Model.C03 Proofs.C03 Proofs.C03b Model.C02 Proofs.C02 Proofs.C02b.
+From EZK Require Import Gen.Tables Lib.Bytes Lib.Num Lib.Utf8 Model.C03 Proofs.C03 Proofs.C03b Model.C02 Proofs.C02 Proofs.C02b Proofs.C02c.
 From EZK Require Model.C10 Proofs.C10 Model.C17 Proofs.C17.
 Import ListNotations.
 Close Scope N_scope.
@@ -80,6 +80,13 @@ Proof. reflexivity. Qed.
 Theorem C02_second_pass_in_bounds : forall start_ok m he cl,
   wfm start_ok m he cl -> second_pass stream_body_len_saved m cl = SpOk he (skipn he m).
 Proof. exact second_pass_wf. Qed.
+
+(* ... and for EVERY byte stream in every segmentation - hostile ones included - no frame the decoder emits makes the
+   second pass slice outside it: along any run the saved (offset, Content-Length) stays a sound summary of the buffer,
+   so the second pass finds the head end the frame was cut with, or rejects the frame *)
+Theorem C02_stream_second_pass_total : forall start_ok chunks f h c,
+  In (IFrame f h c) (run_framed start_ok chunks) -> second_pass stream_body_len_saved f c <> SpPanic.
+Proof. intros start_ok chunks f h c Hin. exact (run_framed_second_pass start_ok chunks f h c Hin). Qed.
 
 (* the form that decodes the length again from the parsed headers (first Content-Length) while the frame was
    cut with the sniffed one (last Content-Length) panics: the saved length is what the theorem above rests on *)
